@@ -86,7 +86,7 @@ class Pi(schemes.interface.inverted_index_sse.InvertedIndexSSE):
         s = max(1, math.ceil(l * self.config.param_actual_storage_level_ratio))  # at least one level (N = 1 -> l = 0)
         p = math.ceil(l / s)
         levels = [l - i * p for i in range(0, s)]
-        if self.config.param_L > 1:
+        if self.config.param_L > 1 and 0 not in levels:  # level 0 may already be one of the evenly distributed levels
             levels.append(0)
         levels.reverse()
 
